@@ -181,6 +181,18 @@ Proof.
 Qed.
 Print Assumptions assemblies_agree_on_Q.
 
+(* the reduced instance QOr (every intermediate result in lowest terms) is what the correspondence runs *)
+Theorem assemblies_agree_on_Qr : forall (A : asm Q) pref erad ct st cp sp ph a b nrm (I0 I2 : cplx Q) cg sg K,
+  (~ nrm == 0 ->
+   cvQ2R (mie_field QOr A pref erad ct st cp sp ph a b nrm)
+   = mie_field RO (asmQ2R A) (cQ2R pref) (cQ2R erad) (Q2R ct) (Q2R st) (Q2R cp) (Q2R sp) (cQ2R ph) (Q2R a) (Q2R b) (Q2R nrm)) /\
+  cvQ2R (mielens_assemble QOr I0 I2 cp sp cg sg K)
+  = mielens_assemble RO (cQ2R I0) (cQ2R I2) (Q2R cp) (Q2R sp) (Q2R cg) (Q2R sg) (cQ2R K).
+Proof.
+  intros. exact (conj (mie_field_Qr_R A pref erad ct st cp sp ph a b nrm) (mielens_assemble_Qr_R I0 I2 cp sp cg sg K)).
+Qed.
+Print Assumptions assemblies_agree_on_Qr.
+
 Theorem wavevec_agrees_on_Q : forall twopi nm w : Q, ~ nm == 0 -> ~ w == 0 ->
   Q2R (wavevec QO twopi nm w) = wavevec RO (Q2R twopi) (Q2R nm) (Q2R w).
 Proof. exact wavevec_Q_R. Qed.
